@@ -114,6 +114,14 @@ func (m *Model) noteWrite(l *MLoc, it *Item) {
 		}
 		if by, ok := u[s]; ok && s != it.Id {
 			m.markUnc(l, it.Id, by)
+			if _, present := l.Items[s]; !present {
+				// s has gone in the model (with an expired item the engine has
+				// not looked at) but is still there in the engine: when the
+				// engine gets to it, this new item goes along - or not, if s
+				// is rewritten first.  Observing the expired item settles s,
+				// not this.
+				m.markUnc(l, it.Id, map[string]bool{"+" + s: true})
+			}
 		}
 	}
 	if by, ok := u[it.Id]; ok {
